@@ -17,11 +17,13 @@ from .common import read_ndjson, load_json, write_ndjson
 OIDS_BAD = {"oid arc >= 2^31": "1.2.2147483648", "oid arc >= 2^63": "1.2.9223372036854775808", "oid arc 40 digits": "1.2." + "9" * 40,
             "oid first arc 3": "3.1.2", "oid single arc": "1", "oid second arc 40": "1.40.1",
             # 40 * first arc + second arc is what gets encoded: it must fit as well
-            "oid first two arcs overflow": "2.9223372036854775807.1"}
+            "oid first two arcs overflow": "2.9223372036854775807.1",
+            # ... and within 31 bits, or no reader (encoding/asn1, crypto/x509) takes the certificate back
+            "oid first two arcs above 31 bits": "2.2147483600.1"}
 INTS_BAD = {"integer >= 2^63": 2 ** 63, "integer 10^30": 10 ** 30, "integer <= -2^63": -2 ** 63 - 1, "integer -1": -1, "integer 0": 0, "integer 2^31": 2 ** 31}
 DATES_BAD = {"date month 00": "2020-00-10", "date month 13": "2020-13-10", "date day 00": "2020-01-00", "date day 32": "2020-01-32", "date day 39": "2020-02-39",
              "date year 0000": "0000-01-01", "date year 9999": "9999-12-31", "date feb 30": "2021-02-30"}
-DUR_BAD = {"duration 20 digits": "99999999999999999999y", "duration huge days": "4000000000d", "duration zero": "0d", "duration all huge": "999999999y999999999m999999999d"}
+DUR_BAD = {"duration wraps to a small value": "144115188075856237d", "duration wraps to zero": "144115188075855872d", "duration 20 digits": "99999999999999999999y", "duration huge days": "4000000000d", "duration zero": "0d", "duration all huge": "999999999y999999999m999999999d"}
 B64_BAD = {"base64 bad padding": "!binary:AQID=", "base64 length 1 mod 4": "!binary:AQIDB", "base64 only padding": "!binary:=", "base64 empty": "!binary:", "raw unknown command": "!foo"}
 ANY_BAD = {"wrong type number": 12345, "wrong type list": ["x"], "wrong type map": {"a": 1}, "wrong type bool": True, "empty string": "", "string 1 MiB": "A" * (1 << 20),
            "string with NUL": "a\u0000b", "string newline": "a\nb"}
@@ -62,6 +64,9 @@ def classes_for(path, val):
         out.update(B64_BAD)
     if key == "name" and isinstance(val, str) and val[:1].isdigit():
         out.update(IP_BAD)
+    # names that are written as IA5String: 7-bit only
+    if (key == "name" and isinstance(val, str) and not val[:1].isdigit()) or key in ("ocsp", "cps", "url"):
+        out["non-ASCII text for an IA5String"] = (val.replace("a", "\u00e4", 1) if "a" in val else val + "\u00fc")
     if key == "serialNumber":
         out["serial negative"] = -5
     if key == "subject":
@@ -95,7 +100,7 @@ def cases(ctx):
         cl = classes_for(path, val)
         keys = list(cl)
         if ctx.quick:
-            must = [k for k in keys if k in OIDS_BAD or k in INTS_BAD or k in DATES_BAD or k in DUR_BAD or k in B64_BAD or k in IP_BAD or k.startswith("subject") or k.startswith("serial")]
+            must = [k for k in keys if k in OIDS_BAD or k in INTS_BAD or k in DATES_BAD or k in DUR_BAD or k in B64_BAD or k in IP_BAD or k.startswith("subject") or k.startswith("serial") or k.startswith("non-ASCII")]
             keys = must + r.sample([k for k in keys if k not in must], 2)
         for k in keys:
             c = copy.deepcopy(base)
@@ -144,6 +149,13 @@ def cases(ctx):
             p = copy.deepcopy(P)
             setp(p, path, cl[k])
             add([("p.yaml", json.dumps(p)), ("e.yaml", json.dumps(C))], k, "profile:" + "/".join(map(str, path)))
+    # (b2) an edit after a first good run (the hash of the new configuration is computed while planning)
+    for cls, val in [("validity ends after year 9999 (edit after a first run)", {"from": "9999-01-01"}),
+                     ("validity ends after year 9999 (duration, edit after a first run)", {"from": "2020-01-01", "duration": "8000y"}),
+                     ("validity starts in year 0000 (edit after a first run)", {"from": "0000-01-01", "until": "0001-01-01"})]:
+        c = case(len(out) + 1, [("e.yaml", json.dumps({"version": 1, "subject": "CN=later"}))], tag={"prop": "C20", "class": cls, "slot": "cert:validity", "ent": "e", "kind": "slot"})
+        c["steps"] = [{"put": [{"path": "e.yaml", "text": json.dumps({"version": 1, "subject": "CN=later", "validity": val})}], "flags": ["m", "c"]}]
+        out.append(c)
     # (c) artifact states x flag sets: r <- s; the artifact of r or s is damaged
     good_r = cfg("CN=AS Root")
     good_s = cfg("CN=AS Sub v2", issuer="r")
